@@ -15,23 +15,65 @@ Fixpoint dedup (l : dset) : dset :=
 Definition lookup_d {A} (k : bytes) (l : list (bytes * A)) (d : A) : A :=
   match assoc_get k l with Some v => v | None => d end.
 
-Fixpoint exp_deps (self : list (bytes * dset)) (calls : list (bytes * list (bytes * dset)))
-  (e : exp) : dset :=
-  match e with
-  | ELit _ => []
-  | EArr l => List.concat (map (exp_deps self calls) l)
-  | EObj kvs => List.concat (map (fun kv => exp_deps self calls (snd kv)) kvs)
-  | ERef (RSelf n) _ => lookup_d n self []
-  | ERef (RCall id (Some o)) _ => lookup_d o (lookup_d id calls []) []
-  | ERef (RCall id None) _ => List.concat (map snd (lookup_d id calls []))
+(* What a value depends on, keeping the structure of literals so that a
+   projection selects the dependencies of the projected part only (the
+   compiler resolves references through struct/array/map literals and
+   pipeline boundaries statically; demanding more than that would make the
+   relation stricter than what a job really consumes). *)
+Inductive rexp :=
+| RLeaf (d : dset)
+| RArr (l : list rexp)
+| RObj (kvs : list (bytes * rexp))     (* struct or typed-map literal *)
+| REach (r : rexp)                     (* results of a mapped call, per fork *)
+| RWith (d : dset) (r : rexp).         (* r, and additionally d whatever is projected *)
+
+Fixpoint rproj (r : rexp) (k : bytes) : rexp :=
+  match r with
+  | RLeaf d => RLeaf d
+  | RArr l => RArr (map (fun x => rproj x k) l)
+  | RObj kvs =>
+      match (fix find (l : list (bytes * rexp)) : option rexp :=
+               match l with
+               | [] => None
+               | kv :: t => if bytes_eqb k (fst kv) then Some (snd kv) else find t
+               end) kvs with
+      | Some v => v                                   (* struct field *)
+      | None => RObj (map (fun kv => (fst kv, rproj (snd kv) k)) kvs)   (* through a typed map *)
+      end
+  | REach r' => REach (rproj r' k)
+  | RWith d r' => RWith d (rproj r' k)
   end.
+
+Fixpoint rflat (r : rexp) : dset :=
+  match r with
+  | RLeaf d => d
+  | RArr l => List.concat (map rflat l)
+  | RObj kvs => List.concat (map (fun kv => rflat (snd kv)) kvs)
+  | REach r' => rflat r'
+  | RWith d r' => d ++ rflat r'
+  end.
+
+Definition rpath (r : rexp) (path : list bytes) : rexp := fold_left rproj path r.
+
+Fixpoint exp_r (self : list (bytes * rexp)) (calls : list (bytes * list (bytes * rexp)))
+  (e : exp) : rexp :=
+  match e with
+  | ELit _ => RLeaf []
+  | EArr l => RArr (map (exp_r self calls) l)
+  | EObj kvs => RObj (map (fun kv => (fst kv, exp_r self calls (snd kv))) kvs)
+  | ERef (RSelf n) path => rpath (lookup_d n self (RLeaf [])) path
+  | ERef (RCall id (Some o)) path => rpath (lookup_d o (lookup_d id calls []) (RLeaf [])) path
+  | ERef (RCall id None) path => rpath (RObj (lookup_d id calls [])) path
+  end.
+
+Definition exp_deps self calls e : dset := rflat (exp_r self calls e).
 
 Section Deps.
   Variable P : program.
 
-  (* returns (dependencies of each output, list of (stage call, its dependencies)) *)
+  (* returns (what each output depends on, list of (stage call, its dependencies)) *)
   Fixpoint deps_callable (fuel : nat) (name : bytes) (path : list bytes)
-    (ins : list (bytes * dset)) (ctl : dset) : list (bytes * dset) * list (bytes * dset) :=
+    (ins : list (bytes * rexp)) (ctl : dset) : list (bytes * rexp) * list (bytes * dset) :=
     match fuel with
     | O => ([], [])
     | S f =>
@@ -39,16 +81,24 @@ Section Deps.
         | None => ([], [])
         | Some (CStage s) =>
             let me := join_path path in
-            (map (fun o => (fst o, [me])) (st_outs s),
-             [(me, dedup (ctl ++ List.concat (map snd ins)))])
+            (map (fun o => (fst o, RLeaf [me])) (st_outs s),
+             [(me, dedup (ctl ++ List.concat (map (fun i => rflat (snd i)) ins)))])
         | Some (CPipe p) =>
-            let step (acc : list (bytes * list (bytes * dset)) * list (bytes * dset)) (c : call) :=
+            let step (acc : list (bytes * list (bytes * rexp)) * list (bytes * dset)) (c : call) :=
               let (calls, entries) := acc in
               let cdis := match c_disabled c with
                           | Some e => exp_deps ins calls e
                           | None => []
                           end in
-              let bdeps := map (fun b : bytes * (bool * exp) => (fst b, exp_deps ins calls (snd (snd b)))) (c_binds c) in
+              let binds := map (fun b : bytes * (bool * exp) =>
+                                  let r := exp_r ins calls (snd (snd b)) in
+                                  (* a split argument delivers one element *)
+                                  (fst b, if fst (snd b) then
+                                            match r with
+                                            | RArr l => RLeaf (rflat r)
+                                            | _ => r
+                                            end
+                                          else r)) (c_binds c) in
               (* the number of results of a mapped call is known only when the
                  collection it maps over is: a reference must be resolved first
                  (a literal collection has a static size; its elements matter
@@ -58,14 +108,16 @@ Section Deps.
                                                | (true, ERef _ _ as e) => exp_deps ins calls e
                                                | _ => []
                                                end) (c_binds c)) in
-              let r := deps_callable f (c_callee c) (path ++ [c_id c]) bdeps (ctl ++ cdis) in
-              (calls ++ [(c_id c, map (fun od : bytes * dset => (fst od, dedup (cdis ++ sdeps ++ snd od))) (fst r))],
+              let r := deps_callable f (c_callee c) (path ++ [c_id c]) binds (ctl ++ cdis) in
+              let wrap (x : rexp) : rexp :=
+                RWith (dedup (cdis ++ sdeps)) (match c_mapped c with Some _ => REach x | None => x end) in
+              (calls ++ [(c_id c, map (fun od : bytes * rexp => (fst od, wrap (snd od))) (fst r))],
                entries ++ snd r) in
             let (calls, entries) := fold_left step (p_calls p) ([], []) in
             (map (fun o => (fst o,
                             match assoc_get (fst o) (p_ret p) with
-                            | Some e => dedup (exp_deps ins calls e)
-                            | None => []
+                            | Some e => exp_r ins calls e
+                            | None => RLeaf []
                             end)) (p_outs p),
              entries)
         end
@@ -73,7 +125,7 @@ Section Deps.
 
   Definition deps_program (fuel : nat) : list (bytes * dset) :=
     let c := pr_top P in
-    snd (deps_callable fuel (c_callee c) [c_id c] (map (fun b => (fst b, [])) (c_binds c)) []).
+    snd (deps_callable fuel (c_callee c) [c_id c] (map (fun b => (fst b, RLeaf [])) (c_binds c)) []).
 End Deps.
 
 (* ---- job-level dependencies for trace acceptance ---- *)
